@@ -175,6 +175,21 @@ func (g *joinRig) jctx() context.Context {
 // changes are only discovered by the destination controller's relists.
 var e10LossyDst bool
 
+// e10SrcLatency (same convention): the source controller's FIRST list takes
+// that long, so a join can be created over a source that is not ready yet.
+var e10SrcLatency time.Duration
+
+func e10ApplySrcLatency(srv *kit.Server) {
+	if d := e10SrcLatency; d > 0 {
+		srv.ListPlan = func(i int) kit.ListFault {
+			if i == 1 {
+				return kit.ListFault{Latency: d}
+			}
+			return kit.ListFault{}
+		}
+	}
+}
+
 func newJoinRig(kind string, core *kit.Core, dstLatency time.Duration) (*joinRig, error) {
 	g := &joinRig{kind: kind, core: core, log: kit.NewLog(core)}
 	base, cancel := context.WithCancel(context.Background())
@@ -242,6 +257,7 @@ func newJoinRig(kind string, core *kit.Core, dstLatency time.Duration) (*joinRig
 	switch kind {
 	case "service-pod", "service-pod-with":
 		g.srcSrv = kit.NewServer(core, func() runtime.Object { return &corev1.ServiceList{} })
+		e10ApplySrcLatency(g.srcSrv)
 		src, err := service.BuildController(g.ctx, g.log, g.srcSrv)
 		if err != nil {
 			return nil, err
@@ -284,6 +300,7 @@ func newJoinRig(kind string, core *kit.Core, dstLatency time.Duration) (*joinRig
 		}
 	case "rc-pod":
 		g.srcSrv = kit.NewServer(core, func() runtime.Object { return &corev1.ReplicationControllerList{} })
+		e10ApplySrcLatency(g.srcSrv)
 		src, err := replicationcontroller.BuildController(g.ctx, g.log, g.srcSrv)
 		if err != nil {
 			return nil, err
@@ -310,6 +327,7 @@ func newJoinRig(kind string, core *kit.Core, dstLatency time.Duration) (*joinRig
 		}
 	case "rs-pod":
 		g.srcSrv = kit.NewServer(core, func() runtime.Object { return &appsv1.ReplicaSetList{} })
+		e10ApplySrcLatency(g.srcSrv)
 		src, err := replicaset.BuildController(g.ctx, g.log, g.srcSrv)
 		if err != nil {
 			return nil, err
@@ -335,6 +353,7 @@ func newJoinRig(kind string, core *kit.Core, dstLatency time.Duration) (*joinRig
 		}
 	case "deployment-pod":
 		g.srcSrv = kit.NewServer(core, func() runtime.Object { return &appsv1.DeploymentList{} })
+		e10ApplySrcLatency(g.srcSrv)
 		src, err := deployment.BuildController(g.ctx, g.log, g.srcSrv)
 		if err != nil {
 			return nil, err
@@ -360,6 +379,7 @@ func newJoinRig(kind string, core *kit.Core, dstLatency time.Duration) (*joinRig
 		}
 	case "daemonset-pod":
 		g.srcSrv = kit.NewServer(core, func() runtime.Object { return &appsv1.DaemonSetList{} })
+		e10ApplySrcLatency(g.srcSrv)
 		src, err := daemonset.BuildController(g.ctx, g.log, g.srcSrv)
 		if err != nil {
 			return nil, err
@@ -385,6 +405,7 @@ func newJoinRig(kind string, core *kit.Core, dstLatency time.Duration) (*joinRig
 		}
 	case "statefulset-pod":
 		g.srcSrv = kit.NewServer(core, func() runtime.Object { return &appsv1.StatefulSetList{} })
+		e10ApplySrcLatency(g.srcSrv)
 		src, err := statefulset.BuildController(g.ctx, g.log, g.srcSrv)
 		if err != nil {
 			return nil, err
@@ -410,6 +431,7 @@ func newJoinRig(kind string, core *kit.Core, dstLatency time.Duration) (*joinRig
 		}
 	case "job-pod":
 		g.srcSrv = kit.NewServer(core, func() runtime.Object { return &batchv1.JobList{} })
+		e10ApplySrcLatency(g.srcSrv)
 		src, err := job.BuildController(g.ctx, g.log, g.srcSrv)
 		if err != nil {
 			return nil, err
@@ -435,6 +457,7 @@ func newJoinRig(kind string, core *kit.Core, dstLatency time.Duration) (*joinRig
 		}
 	case "ingress-service", "ingress-pods":
 		g.srcSrv = kit.NewServer(core, func() runtime.Object { return &netv1beta1.IngressList{} })
+		e10ApplySrcLatency(g.srcSrv)
 		src, err := ingress.BuildController(g.ctx, g.log, g.srcSrv)
 		if err != nil {
 			return nil, err
@@ -913,6 +936,101 @@ func e10As(c Case, prop string, classes map[string]bool) Case {
 	return c
 }
 
+// e10LateSrcCase: the join is created while the SOURCE controller's first list
+// is still in flight and the destination is ready and busy: well over a buffer's
+// worth of destination events (deletes and re-creations among them) pass before
+// the join can become ready.  When source and destination are ready the join is
+// ready and holds exactly the selection, and it keeps following both.
+func e10LateSrcCase(kind string, seed uint64, n int) Case {
+	id := fmt.Sprintf("E10/%s/late-source/%d/%d", kind, seed, n)
+	d := e10desc{kind + "/late-source", seed, n, 1, 0}
+	return Case{ID: id, Desc: d, Bubble: true, Run: func(r *Res) {
+		rng := kit.NewRng(kit.Mix(seed, uint64(n)+1090+kit.HashStr(kind)))
+		core := kit.NewCore(&kit.Plan{Seed: rng.U64(), PYield: 100})
+		e10SrcLatency = 3 * time.Second
+		g, err := newJoinRig(kind, core, 0)
+		e10SrcLatency = 0
+		if err != nil {
+			r.Inc("building bases: " + err.Error())
+			return
+		}
+		defer g.cancel()
+		for i := 0; i < 4; i++ {
+			g.mutSrc(rng)
+			g.mutDst(rng)
+		}
+		if !waitCh(g.basesReady[0], virtBound) {
+			r.V("C09", "base-never-ready", "the destination controller did not become ready")
+			return
+		}
+		core.Barrier()
+		srcReady := true
+		for _, rd := range g.basesReady {
+			srcReady = srcReady && isClosed(rd)
+		}
+		if srcReady {
+			r.Inc("the source was ready before the join was created")
+			return
+		}
+		ji, err := g.mkJoin()
+		if err != nil {
+			r.V("C09", "join-create-error", "creating join %s before the source is ready: %v", kind, err)
+			return
+		}
+		total := kcache.EventBufsiz + 30 + rng.Intn(60)
+		for i := 0; i < total; i++ {
+			g.mutDst(rng)
+			if i%20 == 19 {
+				core.Barrier()
+			}
+		}
+		core.Barrier()
+		if isClosed(ji.ready) {
+			r.V("C09", "join-ready-before-bases", "join %s is ready although the source controller's first list is still in flight", kind)
+		}
+		for _, rd := range g.basesReady {
+			if !waitCh(rd, virtBound) {
+				r.V("C09", "base-never-ready", "a base controller did not become ready")
+				return
+			}
+		}
+		time.Sleep(10 * time.Millisecond)
+		core.Barrier()
+		r.Add("late-source-joins", 1)
+		check := func(when string) bool {
+			if !isClosed(ji.ready) {
+				r.V("C09", "join-not-ready", "join %s created before the source was ready is still not ready %s", kind, when)
+				return false
+			}
+			want, e1 := g.expect()
+			got, e2 := ji.list()
+			if e1 == nil && e2 == nil && !got.Equal(want) {
+				r.V("C09", "join-content-wrong", "join %s created before the source was ready, %d destination events meanwhile; %s it holds %v, the selection is %v", kind, total, when, got, want)
+				return false
+			}
+			return true
+		}
+		if !check("at quiescence after both bases became ready") {
+			return
+		}
+		for i := 0; i < 12; i++ {
+			if i%3 == 0 {
+				g.mutSrc(rng)
+			} else {
+				g.mutDst(rng)
+			}
+		}
+		time.Sleep(10 * time.Millisecond)
+		core.Barrier()
+		check("after 12 further source/destination changes")
+		if !within(ji.close) {
+			r.V("C09", "join-close-hang", "join %s: Close() hung", kind)
+		}
+		r.Key(id)
+		r.Sample = map[string]interface{}{"desc": d, "destination_events_before_ready": total}
+	}}
+}
+
 func init() {
 	register("E10", func(tier string, seed uint64) []Case {
 		var cases []Case
@@ -920,6 +1038,11 @@ func init() {
 		for _, k := range e10Joins {
 			for i := 0; i < n; i++ {
 				cases = append(cases, e10Case(k, seed, i))
+			}
+			if k != "ingress-pods" {
+				for i := 0; i < tierPick(tier, 3, 300); i++ {
+					cases = append(cases, e10LateSrcCase(k, seed, i))
+				}
 			}
 		}
 		return cases
